@@ -49,7 +49,7 @@ func init() {
 	qo.Keys = []string{"k0", "k1", "k2", "k12", "e1"}
 	sup.Register(&sup.Check{
 		Prop: "C19", Level: "exploration",
-		Rule: "engine A histories over three collections sharing key names; at PRNG-chosen points a family of eleven SQLite queries over $_keyspace (exact id/hex(body)/xattr values of every row, LIKE with a named parameter, ORDER BY .. LIMIT, a statement mentioning $_keyspace twice, comparisons on body->>'n', body->>'t', xattrs->'_sync'->>'seq', `xattrs IS NULL`, the raw xattrs column, rows whose first or middle columns are SQL NULL) is executed through Next and NextBytes on in-memory (pre-recorded iterator) and on-disk (streaming iterator) buckets and compared with the same predicate evaluated natively over the KV read-back of that collection; (short bodies) JSON documents of 6-9 bytes, which SQLite could take for its binary JSONB; (raw bodies) a body-property query over a collection holding a non-JSON body must fail or be complete; (stale DataStore) after another handle dropped a collection (and created another one), a query through the DataStore still held for the dropped collection must return no rows, on in-memory and on-disk buckets alike; query cases with a literal % / modulo operator in the statement text and with column aliases containing a quote, a backslash, a tab and a newline; xattr values include bare numbers; cell = (query, number of live docs, tombstones present, bucket type)",
+		Rule: "engine A histories over three collections sharing key names; at PRNG-chosen points a family of eleven SQLite queries over $_keyspace (exact id/hex(body)/xattr values of every row, LIKE with a named parameter, ORDER BY .. LIMIT, a statement mentioning $_keyspace twice, comparisons on body->>'n', body->>'t', xattrs->'_sync'->>'seq', `xattrs IS NULL`, the raw xattrs column, rows whose first or middle columns are SQL NULL) is executed through Next and NextBytes on in-memory (pre-recorded iterator) and on-disk (streaming iterator) buckets and compared with the same predicate evaluated natively over the KV read-back of that collection; (short bodies) JSON documents of 6-9 bytes, which SQLite could take for its binary JSONB; (raw bodies) a body-property query over a collection holding a non-JSON body must fail or be complete; (stale DataStore) after another handle dropped a collection (and created another one), a query through the DataStore still held for the dropped collection must return no rows, on in-memory and on-disk buckets alike; query cases with a literal % / modulo operator in the statement text and with column aliases containing a quote, a backslash, a tab and a newline; xattr values include bare numbers; (real time) a document past its expiry time but not yet tombstoned keeps its row whenever Exists reports it right before and after the query; cell = (query, number of live docs, tombstones present, bucket type)",
 		Assumptions: []string{"the query family is fixed; SQLite's own expression semantics are trusted", "queries over body properties are issued only while every live document of the collection holds valid JSON (a raw body makes SQLite's JSON operators fail for the whole statement)"},
 		Parts: []sup.Part{queryPart("queries-random", 1500, 25000, qo, false), queryPart("queries-json-only", 1000, 15000, qo, true),
 			{Name: "stale-handle-after-drop", Timeout: 60 * time.Second, Count: func(t string) int { return tierN(t, 120, 2400) }, Run: staleHandleScenario},
